@@ -1,12 +1,15 @@
 import PrologVerif.Driver.Common
 import PrologVerif.Driver.C18
 import PrologVerif.Driver.C12
+import PrologVerif.Driver.C15
 open PrologVerif PrologVerif.Driver
 
 def handlers : List (String × Handler) :=
   [ ("c18.hist", C18.handler),
     ("c12.seq", C12.seqHandler),
-    ("c12.inter", C12.interHandler) ]
+    ("c12.inter", C12.interHandler),
+    ("c15.args", C15.argsHandler),
+    ("c15.scan", C15.scanHandler) ]
 
 partial def loop (h : IO.FS.Stream) (out : IO.FS.Stream) (f : Handler) : IO Unit := do
   let line ← h.getLine
